@@ -63,6 +63,23 @@ def parser_for(subset, res=None):
     return _CACHE[key]
 
 
+_EXPLICIT = {}
+
+
+def explicit_parser(subset, res):
+    """the same relaxation set, spelled with every option named and False for the absent ones"""
+    key = frozenset(subset)
+    if key not in _EXPLICIT:
+        from pysmi.parser.smi import parserFactory
+        try:
+            _EXPLICIT[key] = parserFactory(**dict((o, o in key) for o in OPTIONS))()
+        except Exception:
+            _EXPLICIT[key] = None
+        if len(_EXPLICIT) > 40:
+            _EXPLICIT.pop(next(iter(_EXPLICIT)))
+    return _EXPLICIT[key]
+
+
 def try_parse(subset, text, res):
     from pysmi import error
     p = parser_for(subset, res)
@@ -233,6 +250,25 @@ def run_case(idx, rng, tier, res):
         if oc[0] == 'other':
             res.violation('foreign_exception', 'subset %s: %r' % (sorted(s), oc[1]),
                           replay={'text': text, 'subset': sorted(s)})
+    # a dialect is the set of options that are *on*: naming the others with False changes nothing
+    for s_ in list(outcomes)[:3]:
+        p2 = explicit_parser(s_, res)
+        if p2 is None:
+            continue
+        res.count('explicit_false_spellings')
+        try:
+            o2 = ('ok', p2.parse(text))
+        except (error.PySmiLexerError, error.PySmiParserError) as exc:
+            o2 = ('err', exc)
+        except Exception as exc:
+            _EXPLICIT.pop(frozenset(s_), None)
+            o2 = ('other', exc)
+        o1 = outcomes[s_]
+        if o1[0] != o2[0] or (o1[0] == 'ok' and o1[1] != o2[1]):
+            res.violation('false_option_matters', 'dialect %s: with the remaining options passed as False the same text is '
+                          '%s (%s), without them %s' % (sorted(s_), o2[0], str(o2[1])[:100] if o2[0] != 'ok' else 'tree',
+                                                       o1[0]), replay={'text': text, 'subset': sorted(s_)},
+                          breakage=str(kind))
     # inclusion pairs
     for a, b in itertools.permutations(list(outcomes), 2):
         if not a < b:
